@@ -9,6 +9,7 @@ Classes4 == {ClsNS, ClsNEG, ClsPOS, ClsSIL}
 Classes3 == {ClsNS, ClsNEG, ClsPOS}
 Classes2 == {ClsNS, ClsPOS}
 Classes6 == {ClsNS, ClsNS2, ClsNEG, ClsNEG2, ClsPOS, ClsSIL}
+Classes5 == {ClsNS, ClsNS2, ClsNEG, ClsPOS, ClsSIL}
 
 Sfs12  == {1, 2}
 Sfs123 == {1, 2, 3}
